@@ -1,6 +1,7 @@
 (* Property C11 — TS packet header and adaptation field per ISO 13818-1 (theorems only; proofs in Proofs/). *)
 From Coq Require Import ZArith List.
-Require Import Base.Bits Base.Iter Base.Wr Gen.Types Model.Clock Model.Packet Proofs.ClockProofs.
+Require Import Base.Bits Base.Iter Base.Wr Gen.Types Model.Clock Model.Packet Spec.PesSpec Spec.PacketSpec
+  Proofs.ClockProofs Proofs.PacketProofs Proofs.PacketWrite Proofs.PacketExamples.
 Import ListNotations.
 Open Scope Z_scope.
 
@@ -17,3 +18,21 @@ Theorem C11_dts_roundtrip : forall flag base rest, 0 <= base < 2 ^ 33 ->
   Ok (mk_cr base 0, mk_iter (bytes_of_items (enc_pts_or_dts flag (mk_cr base 0)) ++ rest) 5).
 Proof. exact pts_roundtrip. Qed.
 Print Assumptions C11_dts_roundtrip.
+
+(* the 4-byte packet header behind the sync byte: all 2^13 PIDs, 16 counters, 4 scrambling values,
+   every combination of the five flag bits *)
+Theorem C11_header_roundtrip : forall h rest, wf_packet_header h ->
+  parse_packet_header (new_iter (bytes_of_items (enc_packet_header h) ++ rest)) =
+  Ok (h, mk_iter (bytes_of_items (enc_packet_header h) ++ rest) 3).
+Proof. exact header_roundtrip. Qed.
+Print Assumptions C11_header_roundtrip.
+Example C11_header_roundtrip_inhabited : wf_packet_header ex_header.
+Proof. exact ex_header_wf. Qed.
+
+(* whatever writePacket accepts comes out as exactly 188 bytes, sync byte first *)
+Theorem C11_write_188 : forall p bs, write_packet p 188 = Ok bs ->
+  length bs = 188%nat /\ exists rest, bs = 71 :: rest.
+Proof. exact write_packet_188. Qed.
+Print Assumptions C11_write_188.
+Example C11_write_188_inhabited : exists bs, write_packet ex_packet 188 = Ok bs.
+Proof. eexists. vm_compute. reflexivity. Qed.
